@@ -15,19 +15,11 @@ AllA == {[Q |-> Qs, S |-> Sy, T |-> tset, q0 |-> q0, F |-> F, eps |-> IF Kind = 
                   ELSE SUBSET (Qs \X Labs \X Qs)),
            q0 \in Qs, F \in SUBSET Qs}
 
-(* the printer: header lines, then one line per connected pair of states *)
-Pairs(X) == {<<t[1], t[3]>> : t \in X.T}
-LabelsOf(X, pq) == {t[2] : t \in {t \in X.T : t[1] = pq[1] /\ t[3] = pq[2]}}
-Header(X) == <<Ln("states", SetToSeq(X.Q)), Ln("final", SetToSeq(X.F)), Ln("initial", <<X.q0>>),
-               Ln("kw", <<"input_symbols">> \o SetToSeq(X.S))>>
-              \o (IF Kind = "nfa" THEN <<Ln("kw", <<"epsilon", EpsP>>)>> ELSE <<>>)
-RECURSIVE EdgeLines(_, _)
-(* all ways to print the edge lines: for every pair some order of its labels *)
-EdgeLines(X, ps) ==
-  IF ps = {} THEN {<<>>}
-  ELSE LET pq == CHOOSE x \in ps : TRUE
-       IN {<<Ln("tr", <<pq[1], pq[2]>> \o [k \in 1..Len(ord) |-> Ok(ord[k])])>> \o rest :
-             ord \in PermSeqs(LabelsOf(X, pq)), rest \in EdgeLines(X, ps \ {pq})}
+(* the printer: Printer.tla (header lines, then one line per connected pair of states, every label order) *)
+P == INSTANCE Printer
+Header(X) == P!PHeader(Kind, X)
+Pairs(X) == P!PPairs(Kind, X)
+EdgeLines(X, ps) == P!PEdgeLines(Kind, X, ps)
 
 InitRT == /\ A = [Q |-> {}] /\ lines = <<>> /\ pos = 0 /\ items = <<>> /\ states = {} /\ trans = <<>> /\ initial = {}
           /\ final = {} /\ err = "none" /\ ph = "pickA" /\ result = <<>> /\ gl = FALSE
